@@ -73,9 +73,10 @@ Definition sanitize_sampling_interval (l : limits) (r : f64) : f64 :=
   else if fnan r || feq r fzero || flt r (l_min_samp l) then l_min_samp l
   else r.
 
-(* sanitize_queue_size *)
+(* sanitize_queue_size (after "fix: a configured maximum queue size of 0 revised queue sizes to 0
+   ...": never below 1) *)
 Definition sanitize_queue_size (l : limits) (r : Z) : Z :=
-  if (r =? 0) || (r =? 1) then 1 else if l_max_q l <? r then l_max_q l else r.
+  if (r =? 0) || (r =? 1) then 1 else if l_max_q l <? r then Z.max 1 (l_max_q l) else r.
 
 Module Legacy.
   (* before the fix: no is_nan test; NaN fails every comparison and is echoed back *)
